@@ -276,15 +276,49 @@ def imported_names(row):
     return out
 
 
+def _self_attr_nodes(fn):
+    return [x for x in ast.walk(fn) if isinstance(x, ast.Attribute) and isinstance(x.value, ast.Name) and x.value.id == "self"]
+
+
+def self_attrs(row):
+    """(size attribute, record attribute or None): the attributes of `self` that are the *state of the row object* as far as
+    `Row.nbytes` / `Row.as_bytes` go.  Size attribute = what `nbytes` returns (`return self.X`) or, failing that, the one attribute
+    `nbytes` touches.  Record attribute = another attribute that one of the two functions *assigns* (`self.Y = …`): a value kept
+    on the object between calls (there is none on the tree as it is).  More than one such attribute: not translated."""
+    try:
+        nb = row.func("nbytes", "Row")
+    except KeyError:
+        return None, None
+    try:
+        ab = row.func("as_bytes", "Row")
+    except KeyError:
+        ab = None
+    in_nb = {x.attr for x in _self_attr_nodes(nb) if x.attr != "as_bytes"}
+    returned = {s.value.attr for s in ast.walk(nb) if isinstance(s, ast.Return) and isinstance(s.value, ast.Attribute)
+                and isinstance(s.value.value, ast.Name) and s.value.value.id == "self"}
+    stored = {x.attr for fn in (nb, ab) if fn is not None for x in _self_attr_nodes(fn) if isinstance(x.ctx, ast.Store)}
+    if len(returned & in_nb) == 1:
+        size = next(iter(returned & in_nb))
+    elif len(in_nb) == 1:
+        size = next(iter(in_nb))
+    else:
+        sized = {t.attr for s in ast.walk(nb) if isinstance(s, ast.Assign) and len(s.targets) == 1 for t in [s.targets[0]]
+                 if isinstance(t, ast.Attribute) and isinstance(t.value, ast.Name) and t.value.id == "self" and _call(s.value, "len", 1)}
+        if len(sized) != 1:
+            return None, None
+        size = next(iter(sized))
+    others = stored - {size}  # an attribute that is only read (a class-level constant, a method) is not state of these two functions
+    if len(others) > 1:
+        raise Untranslatable("several attributes of self besides the size: %s" % ", ".join(sorted(others)))
+    return size, (next(iter(others)) if others else None)
+
+
 def cache_attr(row):
     """the attribute of `self` that `Row.nbytes` keeps the size in (read and written there)"""
     try:
-        fn = row.func("nbytes", "Row")
-    except KeyError:
+        return self_attrs(row)[0]
+    except Untranslatable:
         return None
-    names = {x.attr for x in ast.walk(fn) if isinstance(x, ast.Attribute) and isinstance(x.value, ast.Name) and x.value.id == "self"
-             and x.attr != "as_bytes"}
-    return names.pop() if len(names) == 1 else None
 
 
 def t_as_bytes(row, whole=False):
@@ -295,7 +329,11 @@ def t_as_bytes(row, whole=False):
     fn = row.func("as_bytes", "Row")
     S = {"payload": None, "ts": None, "chains": {}}
     imports = imported_names(row)
-    cattr = cache_attr(row)
+    cattr, kattr = self_attrs(row) if whole else (None, None)
+
+    def is_kept(n):
+        return whole and kattr is not None and isinstance(n, ast.Attribute) and isinstance(n.value, ast.Name) and n.value.id == "self" \
+            and n.attr == kattr and isinstance(n.ctx, ast.Load)
 
     def is_cached(n):
         return whole and cattr is not None and isinstance(n, ast.Attribute) and isinstance(n.value, ast.Name) and n.value.id == "self" \
@@ -310,6 +348,15 @@ def t_as_bytes(row, whole=False):
                 and isinstance(n.test.ops[0], ast.IsNot) and is_cached(n.test.left) and isinstance(n.test.comparators[0], ast.Constant) \
                 and n.test.comparators[0].value is None:
             return "(cached.getD %s)" % go(n.orelse)
+        # a record kept on the object (`self.<record attribute>`, see `self_attrs`): tests on it; `return self.<it>` is in `ret`
+        if isinstance(n, ast.Compare) and len(n.ops) == 1 and is_kept(n.left) and isinstance(n.comparators[0], ast.Constant) \
+                and n.comparators[0].value is None:
+            if isinstance(n.ops[0], (ast.Is, ast.Eq)):
+                return "(kept = none)"
+            if isinstance(n.ops[0], (ast.IsNot, ast.NotEq)):
+                return "(kept ≠ none)"
+        if is_kept(n):
+            return "(RowGlue.truthyRec kept = true)"  # in a boolean position (elsewhere the text does not elaborate: degrades)
         if isinstance(n, ast.Attribute) and isinstance(n.value, ast.Name) and n.value.id == "self" and isinstance(n.ctx, ast.Load):
             raise Untranslatable("read of self.%s" % n.attr)
         return None
@@ -347,6 +394,8 @@ def t_as_bytes(row, whole=False):
     def ret(v, ex):
         if v is None:
             raise Untranslatable("return without a value")
+        if is_kept(v):
+            return "(RowGlue.retKept kept)"
         return "(catBytes [%s])" % ", ".join(chain(v, ex))
 
     def stmt_hook(s, rest, k, depth, st):
@@ -360,6 +409,26 @@ def t_as_bytes(row, whole=False):
             # expression the translator knows (it is evaluated first, and could raise), the stored attribute must not be read later
             if isinstance(s, ast.AugAssign):
                 raise Untranslatable("augmented assignment to self.%s" % tgt.attr)
+            if whole and kattr is not None and tgt.attr == kattr:
+                # `self.<record attribute> = <record>` inside `as_bytes`: the record (a `+` chain) is evaluated, stored (possible
+                # only with a `__dict__`), and is what a later `self.<record attribute>` of this call reads.  `as_bytes` answers a
+                # record, not a state: that the record is still there at the NEXT call is not shown here -- the read at the top
+                # of the function (`kept`, any value) is what the theorems see, the `obj` cases with edits exercise the rest.
+                if isinstance(s, ast.AnnAssign):
+                    raise Untranslatable("annotated assignment to self.%s" % tgt.attr)
+                try:
+                    parts = chain(s.value, ex)
+                except Untranslatable:
+                    parts = None
+                    # not a record: an attribute nobody reads is only a store (`setAttr` below); one that is read is state we cannot show
+                    fns = [fn, row.func("nbytes", "Row")]
+                    if any(x.attr == tgt.attr and isinstance(x.ctx, ast.Load) for f_ in fns for x in _self_attr_nodes(f_)):
+                        raise
+            if whole and kattr is not None and tgt.attr == kattr and parts is not None:
+                body = st.block(rest, k, depth + 2)
+                return ("match (catBytes [%s]) with\n%s| Except.error e_ => (Except.error e_)\n%s| Except.ok v_ =>\n%s%s(RowGlue.setAttr selfHasDict (\n%s%s"
+                        "let kept : Option RowBytes.Bytes := some v_\n%s%s%s))"
+                        % (", ".join(parts), pad, pad, pad, st.ind, pad, st.ind * 2, pad, st.ind * 2, body))
             ex.go(s.value)
             if any(isinstance(x, ast.Attribute) and isinstance(x.value, ast.Name) and x.value.id == "self" and x.attr == tgt.attr
                    and isinstance(x.ctx, ast.Load) for r in rest for x in ast.walk(r)):
@@ -428,9 +497,20 @@ def t_as_bytes(row, whole=False):
     if "FALLOFF" in body or S["payload"] is None or S["ts"] is None:
         raise Untranslatable("as_bytes: packb / time_ns / return not found")
     if whole:
+        decos = [_u(d) for d in fn.decorator_list]
+        if decos in (["cached_property"], ["functools.cached_property"]):
+            # the value of a `cached_property` is kept on the object under the attribute's own name and handed out from then on:
+            # the body runs only while nothing is kept (the store itself cannot be shown: `as_bytes` answers a record, not a state)
+            if kattr is not None:
+                raise Untranslatable("as_bytes is a cached_property and self.%s is kept as well" % kattr)
+            body = "if (kept ≠ none) then\n    (RowGlue.retKept kept)\n  else\n    " + body.replace("\n", "\n  ")
+        elif decos != ["property"]:
+            raise Untranslatable("as_bytes is decorated with %s" % (", ".join(decos) or "nothing"))
         return ("/-- orso/row.py `Row.as_bytes`, the whole property body statement by statement: `self` = the row's items, `ts` = `time.time_ns()`,\n"
-                "`cached` = the size `Row.nbytes` keeps on the object (`None` on a fresh one), `selfHasDict` as below -/\n"
-                "def as_bytes (selfHasDict : Bool) (cached : Option Nat) (ts : Nat) (self : List PyVal) : Except EncErr RowBytes.Bytes :=\n  %s\n" % body)
+                "`cached` = the size `Row.nbytes` keeps on the object (`None` on a fresh one), `kept` = the record kept on the object (the value of\n"
+                "%s), `selfHasDict` as below -/\n"
+                "def as_bytes (selfHasDict : Bool) (cached : Option Nat) (kept : Option RowBytes.Bytes) (ts : Nat) (self : List PyVal) : Except EncErr RowBytes.Bytes :=\n  %s\n"
+                % ("`self.%s`" % kattr if kattr else "an attribute of `self` other than the size that `nbytes` / `as_bytes` assign: there is none, nothing reads it", body))
     return ("/-- orso/row.py `Row.as_bytes` after `packb` (= `payload`) and `time.time_ns()` (= `ts`), statement by statement;\n"
             "`selfHasDict`: does the row object have a `__dict__` (false for instances of `Row` itself, `__slots__ = ()`) -/\n"
             "def as_bytes_frame (selfHasDict : Bool) (ts : Nat) (payload : RowBytes.Bytes) : Except EncErr RowBytes.Bytes :=\n  %s\n" % body)
@@ -564,20 +644,43 @@ def t_nbytes(row):
     fn = row.func("nbytes", "Row")
     if [a.arg for a in fn.args.args] != ["self"] or fn.args.vararg or fn.args.kwarg or fn.args.kwonlyargs or fn.decorator_list:
         raise Untranslatable("nbytes signature")
-    attr = cache_attr(row)
+    attr, kattr = self_attrs(row)
     if attr is None:
         raise Untranslatable("nbytes: which attribute holds the size")
     consts = module_ints(row)
     ind = "  "
+    RESERVED = ("self", "cached", "kept", "as_bytes", "selfHasDict", "v")
 
     def is_attr(n):
         return isinstance(n, ast.Attribute) and isinstance(n.value, ast.Name) and n.value.id == "self" and n.attr == attr
+
+    def is_kept(n):
+        return kattr is not None and isinstance(n, ast.Attribute) and isinstance(n.value, ast.Name) and n.value.id == "self" and n.attr == kattr
+
+    def is_rec_local(n, local):
+        return isinstance(n, ast.Name) and ("rec:" + n.id) in local
+
+    def rec(n, local):
+        """a bytes-valued expression (`Except EncErr (Option Bytes)`): `self.as_bytes`, the kept record, a local holding one, `None`"""
+        if _u(n) == "self.as_bytes":
+            return "(as_bytes.map some)"
+        if is_kept(n):
+            return "(Except.ok kept)"
+        if is_rec_local(n, local):
+            return "(Except.ok %s)" % lname(n.id)
+        if isinstance(n, ast.Constant) and n.value is None:
+            return "(Except.ok none)"
+        return None
 
     def expr(n, local):
         if is_attr(n):
             return "(Except.ok cached)"
         if _call(n, "len", 1) and _u(n.args[0]) == "self.as_bytes":
             return "(RowGlue.lenOf as_bytes)"
+        if _call(n, "len", 1) and is_kept(n.args[0]):
+            return "(RowGlue.lenOpt kept)"
+        if _call(n, "len", 1) and is_rec_local(n.args[0], local):
+            return "(RowGlue.lenOpt %s)" % lname(n.args[0].id)
         if _int_const(n):
             return "(Except.ok (some %d))" % n.value
         if isinstance(n, ast.Constant) and n.value is None:
@@ -594,9 +697,14 @@ def t_nbytes(row):
         """an expression that cannot raise, as an `Option Nat`"""
         if is_attr(n):
             return "cached"
-        if isinstance(n, ast.Name) and n.id in local:
+        if is_kept(n):
+            return "kept"
+        if isinstance(n, ast.Name) and (n.id in local or ("rec:" + n.id) in local):
             return lname(n.id)
         raise Untranslatable("nbytes test on %s" % _u(n)[:40])
+
+    def truth(n, local):
+        return "RowGlue.truthyRec" if (is_kept(n) or is_rec_local(n, local)) else "RowGlue.truthy"
 
     def test(n, local):
         if isinstance(n, ast.Compare) and len(n.ops) == 1 and isinstance(n.comparators[0], ast.Constant) and n.comparators[0].value is None:
@@ -605,14 +713,14 @@ def t_nbytes(row):
             if isinstance(n.ops[0], (ast.IsNot, ast.NotEq)):
                 return "(%s ≠ none)" % opt(n.left, local)
         if isinstance(n, ast.UnaryOp) and isinstance(n.op, ast.Not):
-            return "(RowGlue.truthy %s = false)" % opt(n.operand, local)
-        return "(RowGlue.truthy %s = true)" % opt(n, local)
+            return "(%s %s = false)" % (truth(n.operand, local), opt(n.operand, local))
+        return "(%s %s = true)" % (truth(n, local), opt(n, local))
 
     def block(stmts, depth, local):
         pad = ind * depth
         stmts = _nodoc(stmts)
         if not stmts:
-            return "(Except.ok none, cached)"  # falls off its end: returns None
+            return "(Except.ok none, cached, kept)"  # falls off its end: returns None
         s, rest = stmts[0], stmts[1:]
         if isinstance(s, ast.Pass):
             return block(rest, depth, local)
@@ -621,21 +729,32 @@ def t_nbytes(row):
                                                            block(list(s.orelse) + rest, depth + 1, local))
         if isinstance(s, ast.Return):
             if s.value is None:
-                return "(Except.ok none, cached)"
-            return "(RowGlue.bindSize %s cached (fun v => (Except.ok v, cached)))" % expr(s.value, local)
+                return "(Except.ok none, cached, kept)"
+            return "(RowGlue.bindSize %s cached kept (fun v => (Except.ok v, cached, kept)))" % expr(s.value, local)
         if isinstance(s, ast.Assign) and len(s.targets) == 1:
             t = s.targets[0]
             if is_attr(t):
-                return ("(RowGlue.bindSize %s cached (fun v => RowGlue.storeCached selfHasDict cached v (fun cached =>\n%s%s%s)))"
+                return ("(RowGlue.bindSize %s cached kept (fun v => RowGlue.storeCached selfHasDict cached kept v (fun cached =>\n%s%s%s)))"
                         % (expr(s.value, local), pad, ind, block(rest, depth + 1, local)))
-            if isinstance(t, ast.Name) and t.id not in ("self", "cached", "as_bytes", "selfHasDict", "v"):
-                return "(RowGlue.bindSize %s cached (fun %s =>\n%s%s%s))" % (expr(s.value, local), lname(t.id), pad, ind, block(rest, depth + 1, local | {t.id}))
+            r = rec(s.value, local)
+            if is_kept(t) and r is not None:
+                # `self.<record attribute> = <record>`: the record is kept on the object (state, visible to `as_bytes`)
+                return ("(RowGlue.bindRec %s cached kept (fun v => RowGlue.storeKept selfHasDict cached kept v (fun kept =>\n%s%s%s)))"
+                        % (r, pad, ind, block(rest, depth + 1, local)))
+            if isinstance(t, ast.Name) and t.id not in RESERVED:
+                if r is not None and not (isinstance(s.value, ast.Constant)):
+                    return "(RowGlue.bindRec %s cached kept (fun %s =>\n%s%s%s))" % (r, lname(t.id), pad, ind,
+                                                                                      block(rest, depth + 1, (local - {t.id}) | {"rec:" + t.id}))
+                return "(RowGlue.bindSize %s cached kept (fun %s =>\n%s%s%s))" % (expr(s.value, local), lname(t.id), pad, ind,
+                                                                                    block(rest, depth + 1, (local - {"rec:" + t.id}) | {t.id}))
         raise Untranslatable("nbytes statement %s" % _u(s)[:50])
 
     body = block(fn.body, 1, frozenset())
-    return ("/-- orso/row.py `Row.nbytes` statement by statement: `cached` = `self.%s` before the call, `as_bytes` = what evaluating\n"
-            "`self.as_bytes` ends in; the result is what the call ends in and `self.%s` afterwards -/\n"
-            "def nbytes (selfHasDict : Bool) (cached : Option Nat) (as_bytes : Except EncErr RowBytes.Bytes) : RowGlue.SizeOut :=\n  %s\n" % (attr, attr, body))
+    return ("/-- orso/row.py `Row.nbytes` statement by statement: `cached` = `self.%s` before the call, `kept` = the record kept on the object\n"
+            "(%s), `as_bytes` = what evaluating `self.as_bytes` ends in (on the object as it is at that moment); the result is what the call\n"
+            "ends in, and `self.%s` and the kept record afterwards -/\n"
+            "def nbytes (selfHasDict : Bool) (cached : Option Nat) (kept : Option RowBytes.Bytes) (as_bytes : Except EncErr RowBytes.Bytes) : RowGlue.SizeOut :=\n  %s\n"
+            % (attr, "`self.%s`" % kattr if kattr else "no such attribute on this tree", attr, body))
 
 
 # --------------------------------------------------------------------------- Row.__new__ (tuple path and dict path)
